@@ -9,7 +9,7 @@ import resolution_common as rc
 
 GEN = []
 RULE = ("random families: 1-4 context layers (20% exclusive) x 0-4 overloads each; signatures with 0-4 visible "
-        "parameters, hidden engine/context anywhere, defaults, *args, **kwargs, keyword-only, lazy Lambda/"
+        "parameters, hidden engine/context anywhere, defaults, *args, **kwargs, keyword-only (multi-word names, explicit alias=), AnyOf, lazy Lambda/"
         "YaqlExpression/MappingRule, Constant, types from object + 6-class lattice with a diamond, function/method/extension, "
         "no_kwargs; calls: positional/skipped/keyword (name => v)/python kwargs, receiver or not, probe/constant/raw arguments, "
         "made through the API and - where the grammar can spell them - also as YAQL text through the real parser; "
